@@ -70,7 +70,13 @@ def run(chk):
         direct_self = [r for r in A.returns_of(f.node) if r.value is not None and A.text(r.value) == me]
         stores = [n for n in ast.walk(f.node) if isinstance(n, ast.Assign) and isinstance(n.targets[0], ast.Attribute) and n.targets[0].attr == "factor"]
         bad = [s for s in stores if f"{me}.factor" not in A.text(s.value)]
-        inherits = any(A.text(s_.value) == f"{me}.factor" for s_ in stores)
+        inherits = False
+        if not (src or direct_self):
+            # the result is a freshly constructed object (not a shallow copy): on *every* path to return its factor is taken from the operand
+            from ..core.cfg import CFG
+            cfg_ = CFG(f.node)
+            takes = [s_ for s_ in stores if A.text(s_.value) == f"{me}.factor"]
+            inherits = bool(takes) and cfg_.always_followed(cfg_.entry.id, takes, strict=True)
         ok = (bool(src) or bool(direct_self) or inherits) and not bad
         chk.verdict("FF1", f, f"{f.short}: built on a shallow copy, factor untouched", True if ok else False,
                     f"{f.short}(): the result is not derived from a shallow copy of the operand or overwrites `.factor` independently of it")
